@@ -283,14 +283,15 @@ func helperCases() []hcase {
 	}
 }
 
-// seqs enumerates all sequences over {1..k} of length 0..n.
+// seqs enumerates all sequences over {0..k-1} of length 0..n (0 is the zero value of the
+// element type: helpers that keep a "last seen" variable must not confuse it with "nothing seen").
 func seqs(k, n int) [][]float64 {
 	out := [][]float64{{}}
 	prev := [][]float64{{}}
 	for l := 1; l <= n; l++ {
 		var cur [][]float64
 		for _, s := range prev {
-			for v := 1; v <= k; v++ {
+			for v := 0; v < k; v++ {
 				t := append(append([]float64{}, s...), float64(v))
 				cur = append(cur, t)
 			}
@@ -497,7 +498,7 @@ func compact(ch []int) []int {
 func init() {
 	core.Register(&core.Check{
 		ID:   "C16",
-		Rule: "per helper: every input sequence over {1,2} up to length 5 (6 thorough) and over {1,2,3} up to length 3 (pairs/triples of unequal lengths for the zips) x every parameter of its domain in 0..7 x input capacity {0,1,2}; each scenario is a network of producers, the helper and independent readers explored by DPOR to completion (all Mazurkiewicz traces) and by delay-bounded DFS (d<=1 quick, d<=2 thorough on short inputs); oracle on every execution: outputs = slice model, outputs closed, inputs consumed (all goroutines finished, no buffered leftovers); states = scenarios, transitions = scheduler events, non-trivial = distinct observed outcomes",
+		Rule: "per helper: every input sequence over {0,1} up to length 5 (6 thorough) and over {0,1,2} up to length 3 (pairs/triples of unequal lengths for the zips) x every parameter of its domain in 0..7 x input capacity {0,1,2}; each scenario is a network of producers, the helper and independent readers explored by DPOR to completion (all Mazurkiewicz traces) and by delay-bounded DFS (d<=1 quick, d<=2 thorough on short inputs); oracle on every execution: outputs = slice model, outputs closed, inputs consumed (all goroutines finished, no buffered leftovers); states = scenarios, transitions = scheduler events, non-trivial = distinct observed outcomes",
 		Assume: []string{"element type float64; helper parameters 0..7; Echo is value-checked only when the input is at least as long as its memory; Seq and Head are not required to consume their input",
 			"DPOR independence relation (send/recv on one channel commute; same-side operations conflict) is cross-checked by the delay-bounded DFS, which assumes nothing"},
 		Units: func(tier string) []core.Unit {
